@@ -14,6 +14,7 @@ package envelope
 //@  && isTagKey(sp, b) && res.Tag == nodeStr(mapKeyAt(sp, b)) && res.tokenPayloadNode == mapValAt(sp, b)
 //@
 //@ func Inspect
+//@   ensures [C09] total: true
 //@   requires node != nil
 //@   ensures [C06,C10] shape: result1 == nil ==> nodeKind(sigPayload(node)) == datamodel.Kind_Map && mapLen(sigPayload(node)) == 2 && result0.sigPayloadNode == sigPayload(node)
 //@   ensures [C06] signature: result1 == nil ==> bytes(result0.Signature) == nodeBytes(lookupIdx(node, 0))
@@ -57,6 +58,7 @@ package envelope
 //@   inline
 //@
 //@ func FindTag
+//@   ensures [C09] total: true
 //@   requires node != nil
 //@   use node_sizes, node_map_children
 //@   loop 0: invariant it != nil && 0 <= i && i <= 2 && i == mitPos(it) && nodeKind(mitNode(it)) == datamodel.Kind_Map
@@ -66,6 +68,7 @@ package envelope
 //@ // CIDv1, DAG-CBOR codec (0x71), SHA2-256 (0x12), default digest length
 //@ pure func ucanCid(data string) cid.Cid = cidSum(1, 113, 18, 0, data)
 //@ func CIDFromBytes
+//@   ensures [C09] total: true
 //@   ensures [C08] spec: result1 == nil ==> result0 == ucanCid(bytes(b))
 //@   ensures [C08] err: result1 == cidSumErr(1, 113, 18, 0, bytes(b))
 //@   assigns [C20] nothing
